@@ -334,7 +334,13 @@ def load_known():
     out = json.load(open(p)).get("findings", [])
     for frag in sorted(glob.glob(os.path.join(ROOT, "known_findings.d", "*.json"))):
         out += json.load(open(frag)).get("findings", [])
-    return out
+    # known_findings.json is the merged list (lib/mkknown.py); the per-property fragments are its sources and win
+    seen, uniq = set(), []
+    for f in reversed(out):
+        if f.get("id") not in seen:
+            seen.add(f.get("id"))
+            uniq.append(f)
+    return list(reversed(uniq))
 
 
 def one_round(prop, cfg, work, tier, seed, scale):
